@@ -1,11 +1,15 @@
 #![allow(warnings)]
 pub mod rt;
-#[path = "gen/m0t.rs"] mod m0t;
 #[path = "gen/m0a.rs"] mod m0a;
-#[path = "gen/m1t.rs"] mod m1t;
 #[path = "gen/m1a.rs"] mod m1a;
-#[path = "gen/m2t.rs"] mod m2t;
 #[path = "gen/m2a.rs"] mod m2a;
+#[path = "gen/m3a.rs"] mod m3a;
+#[path = "gen/m4a.rs"] mod m4a;
+#[path = "gen/m5a.rs"] mod m5a;
+#[path = "gen/m6a.rs"] mod m6a;
+#[path = "gen/m7a.rs"] mod m7a;
+#[path = "gen/m8a.rs"] mod m8a;
+#[path = "gen/m9a.rs"] mod m9a;
 
 fn main() {
     use std::io::{BufRead, Write};
@@ -18,12 +22,16 @@ fn main() {
         let mut f = line.splitn(4, '\t');
         let (m, p, items, orc) = (f.next().unwrap(), f.next().unwrap(), f.next().unwrap_or(""), f.next().unwrap_or(""));
         let r = match (m, p) {
-        ("m0t", "S") => rt::run_case(items, orc, |it| m0t::SParser::new().parse(it)),
         ("m0a", "S") => rt::run_case(items, orc, |it| m0a::SParser::new().parse(it)),
-        ("m1t", "S") => rt::run_case(items, orc, |it| m1t::SParser::new().parse(it)),
         ("m1a", "S") => rt::run_case(items, orc, |it| m1a::SParser::new().parse(it)),
-        ("m2t", "S") => rt::run_case(items, orc, |it| m2t::SParser::new().parse(it)),
         ("m2a", "S") => rt::run_case(items, orc, |it| m2a::SParser::new().parse(it)),
+        ("m3a", "S") => rt::run_case(items, orc, |it| m3a::SParser::new().parse(it)),
+        ("m4a", "S") => rt::run_case(items, orc, |it| m4a::SParser::new().parse(it)),
+        ("m5a", "S") => rt::run_case(items, orc, |it| m5a::SParser::new().parse(it)),
+        ("m6a", "E") => rt::run_case(items, orc, |it| m6a::EParser::new().parse(it)),
+        ("m7a", "S") => rt::run_case(items, orc, |it| m7a::SParser::new().parse(it)),
+        ("m8a", "S") => rt::run_case(items, orc, |it| m8a::SParser::new().parse(it)),
+        ("m9a", "S") => rt::run_case(items, orc, |it| m9a::SParser::new().parse(it)),
             _ => "NOPARSER".to_string(),
         };
         writeln!(out, "{}", r).unwrap();
